@@ -28,6 +28,7 @@ import json
 import math
 import os
 import random
+import re
 import time
 
 from . import c14_overlap, c14_pool, common
@@ -204,6 +205,20 @@ DEGENERATE_FOR = {
     "send_commands_from_file": ["list", "none", "int", "nofile"], "send_configs_from_file": ["list", "none", "int", "nofile"],
 }
 PLURAL = ("send_commands", "send_commands_from_file", "send_config", "send_configs", "send_configs_from_file")
+# expected outputs of send_and_read that are literal device text but no regular expression (the joined pattern of the
+# expected outputs does not compile: unbalanced '[' / '(', leading '*', dangling '\\', bad repeat, bad range)
+BAD_REGEX = ["[confirm", "(y/n", "*** done", "done? \\", "a{2}{3}", "[z-a]"]
+
+
+def uncompilable(expected):
+    """the expected outputs of a send_and_read do not make a regular expression (decided with `re`, not with the library)"""
+    if not expected:
+        return False
+    try:
+        re.compile("|".join("(" + x + ")" for x in expected).encode(), flags=re.I | re.M)
+        return False
+    except re.error:
+        return True
 
 
 def ov_value(ov):
@@ -524,6 +539,11 @@ class Conn:
                 kw["read_duration"] = BAD_VALUES[rd["bad"]] if isinstance(rd, dict) else (None if rd is None else val(rd))
             if spec.get("expected"):
                 kw["expected_outputs"] = list(spec["expected"])
+            if spec.get("via") == "channel":
+                # the channel's own method (no timeout_ops, no Response): what the driver's send_and_read calls
+                kw.pop("timeout_ops", None)
+                kw.pop("failed_when_contains", None)
+                return d.channel.send_input_and_read(spec["cmd"], **kw)
             return d.send_and_read(spec["cmd"] if arg is None else DEGENERATE_VALUES[arg]([spec["cmd"]]), **kw)
         if op in ("send_config", "send_configs", "send_configs_from_file"):
             if spec.get("priv"):
@@ -660,6 +680,11 @@ class Conn:
                     if exc is not None:
                         raise Unmodelled("exception after the timed read")
                     evs = ["RTimeout" if e["raised"] else "RData" for e in tio]
+                elif not tio and not starved and own_io and isinstance(exc, re.error) and uncompilable(spec.get("expected")):
+                    # the expected outputs are no regular expression: the timed read is entered and left before its first
+                    # read; in the model that is "some I/O (input written, echo read), then the exception" - the swap of
+                    # timeout_transport has not happened (the oracle below decides that on the observed values)
+                    p = "(PIo %s)" % exc_term(ename)
                 else:
                     evs = ["RTimeout" if e["raised"] else "RData" for e in tio[:-1]]
                     if not tio or tio[-1]["raised"] is None:
@@ -842,6 +867,13 @@ def make_degenerate(rng, spec):
     op = spec["op"]
     if op in PLURAL and rng.random() < 0.5:
         spec["cmds"] = []
+    elif op == "send_and_read" and rng.random() < 0.5:
+        # expected outputs that are no regular expression (alone, or beside one that is)
+        spec["expected"] = [rng.choice(BAD_REGEX)] + (["marker"] if rng.random() < 0.3 else [])
+        rng.shuffle(spec["expected"])
+        if rng.random() < 0.25:
+            spec["via"] = "channel"
+            spec["ov"] = None
     else:
         spec["arg"] = rng.choice(DEGENERATE_FOR[op])
     return spec
@@ -1010,7 +1042,8 @@ def enumerate_single(thorough):
 
 def degenerate_shapes():
     """every operation that takes a per-call timeout_ops x every degenerate argument: empty batch (no command / empty config
-    string / file without a line; with and without stop_on_failed), wrong type, file that is not there"""
+    string / file without a line; with and without stop_on_failed), wrong type, file that is not there; and send_and_read /
+    channel.send_input_and_read with expected outputs that are no regular expression x read duration"""
     shapes = []
     for op in PLURAL:
         shapes.append({"op": op, "cmds": [], "stop": False})
@@ -1023,6 +1056,17 @@ def degenerate_shapes():
             else:
                 sp["cmd"] = "show version"
             shapes.append(sp)
+    # send_and_read / channel.send_input_and_read whose expected outputs are no regular expression x read duration
+    # (absent = 2.5, None, 0, fractional, above the configured timeout_transport)
+    for n, bad in enumerate(BAD_REGEX):
+        for m, rd in enumerate(["absent", None, 0, 2999, 45000]):
+            for via in ("driver", "channel"):
+                sp = {"op": "send_and_read", "cmd": "show version", "expected": [bad] if (n + m) % 3 else ["marker", bad]}
+                if rd != "absent":
+                    sp["rd"] = rd
+                if via == "channel":
+                    sp["via"] = "channel"
+                shapes.append(sp)
     return shapes
 
 
@@ -1040,11 +1084,18 @@ def enumerate_degenerate(full=False):
                 cfg_op = sp["op"] in ("send_config", "send_configs", "send_configs_from_file")
                 if kind == "generic" and cfg_op:
                     continue
-                empty = not sp.get("arg")
+                cls = degenerate_class(sp)
+                empty = cls == "empty"
                 if not full and kind == "network" and not empty and sp["op"] not in PLURAL:
                     continue          # NetworkDriver = IOSXEDriver's code for the singular operations
+                if cls == "bad-regex":
+                    # these calls do reach the device (input written, echo read) before they fail; always followed by an
+                    # ordinary call.  The channel's method takes no timeout_ops.
+                    ovs = [None] if sp.get("via") == "channel" else (ovs_all if full else [ovs_all[n % len(ovs_all)], {"ms": 7500}])
+                else:
+                    ovs = ovs_all if full or (empty and not sp["stop"]) else [{"ms": 0}, {"ms": 7500}, {"bad": "str"}]
                 for has_set in ((False, True) if full else (bool(n % 2),)):
-                    for ov in (ovs_all if full or (empty and not sp["stop"]) else [{"ms": 0}, {"ms": 7500}, {"bad": "str"}]):
+                    for ov in ovs:
                         spec = dict(sp)
                         spec["ov"] = ov
                         fsets = [{}]
@@ -1054,7 +1105,7 @@ def enumerate_degenerate(full=False):
                         for fs in fsets:
                             calls = [{"spec": spec, "faults": fs, "heal": "reopen_drain"}]
                             out.append({"stack": stack, "kind": kind, "has_set": has_set, "base_ops": 30000, "base_tr": 30000,
-                                        "policy": ["whole"], "calls": calls + ([follow] if full else [])})
+                                        "policy": ["whole"], "calls": calls + ([follow] if full or cls == "bad-regex" else [])})
     return out
 
 
@@ -1117,6 +1168,8 @@ def degenerate_class(spec):
         return "missing-file" if spec["arg"] == "nofile" else "wrong-type"
     if spec["op"] in PLURAL and not spec["cmds"]:
         return "empty"
+    if spec["op"] == "send_and_read" and uncompilable(spec.get("expected")):
+        return "bad-regex"
     return None
 
 
@@ -1412,7 +1465,10 @@ def run(rep):
                 "operation x override class x fault kind x position (a seeded third of it in the quick tier) and real-timer cases on a silent device; "
                 "plus calls with a DEGENERATE ARGUMENT and a timeout override: empty batch (send_commands([]) / send_configs([]) / send_config('') / "
                 "*_from_file on a file without a line, with and without stop_on_failed), an argument of the wrong type (str / tuple / None / int "
-                "where a list is expected, list / None / int where a command, a config string or a path is expected), a file that is not there - "
+                "where a list is expected, list / None / int where a command, a config string or a path is expected), a file that is not there, "
+                "send_and_read / channel.send_input_and_read whose expected_outputs are literal device text but no regular expression "
+                "(unbalanced '[' or '(', leading '*', dangling backslash, multiple repeat, bad range; alone or beside a valid one) x "
+                "read_duration (absent / None / 0 / fractional / above timeout_transport) x with / without timeout_ops, each followed by an ordinary call - "
                 "the whole product shape x override class x stack x GenericDriver / IOSXEDriver / NetworkDriver (faults in the privilege "
                 "handling that precedes an empty config batch) and seeded histories that mix such calls with ordinary ones, faults and "
                 "nested calls in callbacks (own seeded stream); when an obligation no longer checks and no failing input was found, the rest "
@@ -1592,6 +1648,11 @@ MANIFEST = {
             "never set and the state is untouched; the histories contain every such call shape with every override class on all three driver "
             "kinds and both stacks (same oracle: after the call, whatever its outcome, every timeout equals its configured value), and the model "
             "term of such a call is built from the observation that no decorated _send_command was entered. "
+            "A send_and_read whose expected outputs do not compile as a regular expression fails with re.error AFTER the input was written "
+            "and its echo read, on entry of the timed read and before its first read: model term OSendAndRead o rd (PIo EOther) [] - under "
+            "the override, timeout_transport never swapped (on the unchanged tree the pattern is compiled before the swap); the oracle "
+            "decides on the observed values that timeout_transport / the session timeout are the configured ones after the failed call "
+            "and after the ordinary call that follows. "
             "Thread based timeout of the sync stack (decorators._multiprocessing_timeout: system/telnet transports, windows, non-main threads): "
             "theorem pool_call_restores - because the pool's exit joins the worker, when ScrapliTimeout reaches the caller the worker has left "
             "send_and_read's timed read through its finally, so all three values are what they were AT THE MOMENT THE CALL ENDS and no thread is left "
@@ -1635,6 +1696,9 @@ MANIFEST = {
             "Degenerate-argument calls: that an argument check sits before every decorated call is taken from the observed run (no "
             "_send_command entered, no I/O of the call's own), not from the source; send_interactive / send_and_read given a non-string fail "
             "inside the decorated call (modelled as BPre / PNoIo under the override). "
+            "Uncompilable expected outputs: that the failure comes before the swap of timeout_transport is taken from the observed run (the "
+            "timed read was entered and left by re.error with no read of its own), not from the source; channel.send_input_and_read called "
+            "directly is modelled as OSendAndRead OvNone. "
             "Not modelled: values nan/inf (oracle only), "
             "a callback that sets the timeouts itself (excluded by the theorem's hypothesis on callbacks).",
     "technique": "Coq proof (case analysis over outcomes, induction over call sequences / read_callback stages, invariant session timeout = transport timeout) "
